@@ -176,12 +176,29 @@ def gen_cases(rng, tier):
             calls.append(("repeat", rng.randrange(4), rseq(3)))
         else:
             calls.append(("concat", [rseq(3) for _ in range(rng.randrange(4))]))
+    # partial match followed by a real occurrence that starts inside it: subject = p[:k] (+ p[:k]) + p (+ tail)
+    overlap = []
+    for n in range(2, 7):
+        for t in itertools.product(range(2), repeat=n):
+            pat = list(t)
+            for k in range(1, n):
+                overlap.append((pat, pat[:k] + pat))
+                overlap.append((pat, pat[:k] + pat[:k] + pat + [1 - pat[-1]]))
+    if tier != "thorough":
+        overlap = rng.sample(overlap, 260)
+    for pat, subject in overlap:
+        f = rng.choice(["contains", "contains", "split", "has_suffix", "trim_suffix"]) if tier != "thorough" else None
+        for g in ([f] if f else ["contains", "split", "has_suffix", "trim_suffix", "has_prefix"]):
+            calls.append((g, pat, subject))
+        if tier == "thorough" or rng.random() < 0.3:
+            calls.append(("sub", pat, [2], subject))
     # self-overlap corpus (minimised past failures run first)
     corpus = [("contains", [0, 0, 1], [0, 0, 0, 1]), ("has_suffix", [2, 1], [0, 1, 1]), ("split", [0, 0, 1], [0, 0, 0, 1, 1]),
               ("sub", [0, 0, 1], [2], [0, 0, 0, 1, 0]), ("trim_suffix", [2, 1], [0, 1, 1]), ("has_suffix", [0, 1], [1]),
               ("has_prefix", [0, 1], [0]), ("contains", [], [0]), ("contains", [], []), ("split", [], [0, 1]),
               ("join", [], [[], [0]]), ("join", [2], [[0], [], [1]]), ("concat", [[], [0], [1, 1]]), ("repeat", 0, [1]),
-              ("trim_prefix", [0, 1], [0, 1]), ("trim_suffix", [0, 1], [0, 1]), ("sub", [], [2], [0, 1]), ("sub", [], [2], [])]
+              ("trim_prefix", [0, 1], [0, 1]), ("trim_suffix", [0, 1], [0, 1]), ("sub", [], [2], [0, 1]), ("sub", [], [2], []),
+              ("contains", [0, 1, 0, 0], [0, 1, 0, 1, 0, 0]), ("split", [0, 1, 0, 0], [0, 1, 0, 1, 0, 0, 1]), ("join", [2], [[], [0]]), ("join", [2], [[], [], [1]])]
     calls = corpus + calls
     cases = []
     for i, c in enumerate(calls):
